@@ -93,12 +93,13 @@ Print Assumptions parse_fuel_monotone.
 (* Stmt::write / Vec<Stmt>::write against parser/stmt.rs: annotations, `let` (with and without value), main pipelines
    (one element per line) and `into`, `import` (with alias), nested `module`s; trees modulo doc comments (the formatter
    prints none and the property ignores them); `type`, `let x <ty>` and the `prql` header are outside the model.
-   Full statement (FALSE -- findings C14-doc-comment-split and C14-main-pipeline-alias):
+   Full statement (FALSE -- finding C14-doc-comment-split):
      forall ss, wf_prog ss = true -> ops_ok_prog nbin nun ss = true ->
        exists f0, forall f, f0 <= f -> parse_prog_prql f (fmt_prog_toks ss) = Some ss
    `known_prog ss` holds exactly when, at some nesting level, a main pipeline is directly followed by a main pipeline or
-   `into` without annotation (in a parsed tree only a doc comment can separate the two), or the value of a main
-   pipeline / `into` is a pipeline that carries an alias. *)
+   `into` without annotation (in a parsed tree only a doc comment can separate the two).  The second class of the first
+   version of this theorem -- the value of a main pipeline is a pipeline that carries an alias, finding
+   C14-main-pipeline-alias -- was repaired by commit e3202e5: Example ex_former_alias_pipeline. *)
 Theorem fmt_program_roundtrip_generic : forall F T nb nu, compat F T nb nu = true ->
   forall ss, wf_prog ss = true -> ops_ok_prog nb nu ss = true -> known_prog ss = false ->
   exists f0, forall f, (f0 <= f)%nat -> parse_prog T f (fmt_prog F ss) = Some ss.
@@ -116,14 +117,11 @@ Theorem fmt_program_roundtrip_refuted :
 Proof. exists split_witness. exact split_refuted. Qed.
 Print Assumptions fmt_program_roundtrip_refuted.
 
-(* one witness per class: two pipelines that only a doc comment separates; an aliased pipeline as a statement *)
-Theorem fmt_program_refutation_witnesses :
-  (adjacent_mains split_witness = true /\ forall f, parse_prog_prql f (fmt_prog_toks split_witness) <> Some split_witness) /\
-  (existsb known_stmt alias_pipeline_witness = true /\ forall f, parse_prog_prql f (fmt_prog_toks alias_pipeline_witness) <> Some alias_pipeline_witness).
-Proof.
-  split; (split; [reflexivity|]); [exact (proj2 (proj2 split_refuted)) | exact (proj2 (proj2 alias_pipeline_refuted))].
-Qed.
-Print Assumptions fmt_program_refutation_witnesses.
+(* the witness: two pipelines that only a doc comment separates *)
+Theorem fmt_program_refutation_witness :
+  adjacent_mains split_witness = true /\ forall f, parse_prog_prql f (fmt_prog_toks split_witness) <> Some split_witness.
+Proof. split; [reflexivity | exact (proj2 (proj2 split_refuted))]. Qed.
+Print Assumptions fmt_program_refutation_witness.
 
 Theorem parse_prog_fuel_monotone : forall f g ts p, (f <= g)%nat -> parse_prog_prql f ts = Some p -> parse_prog_prql g ts = Some p.
 Proof. exact (parse_prog_mono P_prql). Qed.
@@ -228,6 +226,9 @@ Example ex_glued_detects : glued [TA (AParam [97]); TRg true true; TA (AIdent [[
 Proof. vm_compute. split; reflexivity. Qed.
 Example ex_program : wf_prog program_witness = true /\ ops_ok_prog nbin nun program_witness = true /\ known_prog program_witness = false
   /\ parse_prog_prql 60 (fmt_prog_toks program_witness) = Some program_witness.
+Proof. vm_compute. repeat split; reflexivity. Qed.
+Example ex_former_alias_pipeline : wf_prog alias_pipeline_witness = true /\ known_prog alias_pipeline_witness = false
+  /\ parse_prog_prql 40 (fmt_prog_toks alias_pipeline_witness) = Some alias_pipeline_witness.
 Proof. vm_compute. repeat split; reflexivity. Qed.
 Example ex_alias_text : fmt_text (EBin 5 (idn 97) (EAlias [120] (idn 98))) = [97; 32; 43; 32; 40; 120; 32; 61; 32; 98; 41]   (* a + (x = b) *)
   /\ fmt_text (ERng (par_atom 97) (idn 98)) = [40; 36; 97; 41; 46; 46; 98]                                                (* ($a)..b *)
